@@ -565,3 +565,65 @@ C16_MIX = [
     (gen_add_job, 5), (gen_add_step, 4), (gen_add_up, 4), (gen_remove_up, 3), (gen_permute_ups, 2),
     (gen_delete, 6), (gen_second_system, 4),
 ]
+
+
+# ---------------------------------------------------------------------------------------------------
+# C05: what-if simulations
+
+def modelled_period(spec):
+    """[(usage pattern, zone, first local hour, number of hours)] for the usage patterns of the system."""
+    out = []
+    for up in spec["objs"]["sys"]["attrs"]["usage_patterns"][1]:
+        a = spec["objs"][up]["attrs"]
+        h = a["hourly_usage_journey_starts"]
+        zone = spec["objs"][a["country"][1]]["attrs"]["timezone"][1]
+        out.append((up, zone, h[1], len(h[2])))
+    return out
+
+
+def simulation_date(rng, spec, kind=None):
+    import pytz
+    from datetime import datetime, timedelta
+    periods = modelled_period(spec)
+    if not periods:
+        return None, "none"
+    up, zone, start, n = rng.choice(periods)
+    kind = kind or rng.choice(["first", "interior", "interior", "interior", "last", "before", "after", "far", "naive"])
+    t0 = datetime.strptime(start, "%Y-%m-%d %H:%M:%S")
+    off = {"first": 0, "interior": rng.randint(1, max(1, n - 2)), "last": n - 1, "before": -30, "after": n + 30,
+           "far": 24 * 400, "naive": rng.randint(0, n - 1)}[kind]
+    t = t0 + timedelta(hours=off)
+    if kind == "naive":
+        return t.isoformat(), kind
+    tz = pytz.timezone(zone)
+    aware = tz.localize(t, is_dst=True)
+    return aware.isoformat(), kind
+
+
+def gen_simulate(rng, spec, cfg, closure_names, i, extra_changes=None, date_kind=None):
+    changes, seen = [], set()
+    n = rng.choice([1, 1, 2, 3])
+    for _ in range(n * 4):
+        fn = rng.choice([gen_numeric, gen_numeric, gen_numeric, gen_hourly, gen_link, gen_list_assign, gen_categorical])
+        sub = fn(rng, spec, cfg, closure_names, i)
+        if sub is None or sub["op"] != "set":
+            continue
+        if sub["obj"] not in closure_names and rng.random() < 0.9:
+            continue
+        key = (sub["obj"], sub["attr"])
+        if key in seen:
+            continue
+        seen.add(key)
+        changes.append({k: v for k, v in sub.items() if k != "op"})
+        if len(changes) == n:
+            break
+    if extra_changes:
+        pos = rng.randint(0, len(changes))
+        changes[pos:pos] = extra_changes
+    if not changes:
+        return None
+    date, kind = simulation_date(rng, spec, date_kind)
+    if date is None:
+        return None
+    toggles = [rng.choice(["set", "reset"]) for _ in range(rng.choice([0, 0, 1, 2, 3, 4, 6]))]
+    return {"op": "simulate", "changes": changes, "date": date, "date_kind": kind, "toggles": toggles, "i": i}
